@@ -104,6 +104,8 @@ class Check:
         # vacuity protection
         if partial is not None and not new:
             return None
+        if partial is None:
+            self.check_length_branches()
         for rule, n in (self.floors.items() if partial is None else ()):
             got = self.rule_counts.get(rule, 0)
             if got < n:
@@ -123,6 +125,22 @@ class Check:
         print(f"[{self.pid}] tier={self.tier} obligations={sum(self.rule_counts.values())} "
               f"violations={len(new)} known={nk} evaluations={self.evaluations} wall={time.time() - self.t0:.1f}s")
         return exit_code
+
+    LENGTH_BOUND = 8
+
+    def check_length_branches(self):
+        """The scenarios use series of bounded length.  A branch that compares a length / size with a constant above that bound and of which
+        only one arm was ever reached means the code behaves differently for long series in a way no scenario looked at: the run cannot
+        claim the property there (exit 2), rather than pass silently."""
+        from .interp import Interp, size_threshold
+        from .repo import unparse
+        for node, then_arm, else_arm, fn in Interp.arms.values():
+            if then_arm and else_arm:
+                continue
+            k = size_threshold(node.test)
+            if k is not None and k > self.LENGTH_BOUND:
+                raise AnalysisError(f'{fn}: `if {unparse(node.test, 80)}` switches behaviour at a series length / size of {k}, beyond the lengths '
+                                    f'the scenarios explore (<= {self.LENGTH_BOUND}); the {"else" if then_arm else "then"} arm was never analysed', node)
 
     def write_evidence(self, nviol):
         total = sum(self.rule_counts.values())
